@@ -3,6 +3,7 @@ proved on a file-system model and tied to unpack.UnpackSquashedFromTarball by sn
 built-in plugin touches the scanned tree is a run-time observation, see the scan stream below)."""
 import binascii
 import os
+import re
 
 from . import lib
 from .c04 import _parallel_driver
@@ -173,29 +174,133 @@ def run(ctx):
     def classify(case, fi, fm):
         return 'err=%s contained=%s h=%s' % (fi.get('err', fi.get('_')), fm.get('contained'), fm.get('h'))
 
+    if ctx.replay and any(l.startswith('scan ') for l in open(ctx.replay)):
+        scan_stream(ctx, replay=ctx.replay)          # a replay file of the scan stream
+        if not proofs_ok:
+            lib.proof_failed(ctx, 'Scalibr.Properties.C06')
+        return
     lib.standard_stream(ctx, gen='c06gen', driver='drv_c06', gen_args=['-seed', str(ctx.seed), '-n', str(n), '-tier', ctx.tier],
                         compare_keys=['err', 'snap'], nontrivial=nontrivial, oracle=lambda c, a, b: judge(c, a, b)[0], classify=classify,
                         finding_class=lambda c, a, b: judge(c, a, b)[1], sample_every=997)
-    scan_stream(ctx)
+    if not ctx.replay:
+        scan_stream(ctx)
     if not proofs_ok:
         lib.proof_failed(ctx, 'Scalibr.Properties.C06')
 
 
-def scan_stream(ctx):
+SCAN_KEY = 'C06/rpm-sqlite-opened-read-write'
+VARIANT = {'0': 'valid', '1': 'zero-byte', '2': 'truncated', '3': 'random bytes', '4': '8 bytes flipped', '5': 'missing'}
+
+
+def _scan_table(binary):
+    """the file table and the auxiliary-file groups of c06scan"""
+    rc, out = lib.sh([binary, '-tier', 'list'], timeout=120)
+    files, defaults, groups = [], [], []
+    for l in out.split('\n'):
+        t = l.split(' ')
+        if t[0] == 'file':
+            files.append(t[2])
+            defaults.append(t[3].split('=')[1])
+        elif t[0] == 'group':
+            groups.append(l[6:])
+    return files, defaults, groups
+
+
+def _dec_items(s):
+    return [] if s in ('-', '', None) else [binascii.unhexlify(x).decode('latin1') for x in s.split(',')]
+
+
+def _tree_text(case, files, defaults):
+    t = case.split(' ')
+    if len(t) != 4 or len(t[3]) != len(files):
+        return 'tree: ' + case
+    odd = ['%s=%s' % (files[k], VARIANT.get(c, c)) for k, c in enumerate(t[3]) if c != defaults[k]]
+    return 'route=%s (%s); tree = every production file valid, -wal/-shm/-journal absent, except: %s' % (
+        t[1], 'real directory root' if t[1] == 'r' else 'virtual FS', '; '.join(odd) or '(nothing: the pristine tree)')
+
+
+def _rpm_sqlite_class(case, f, files):
+    """class predicate of the known finding: real-directory route, every difference is on an rpmdb.sqlite or its
+    -wal/-shm/-journal sibling, and such a sibling was present in the tree"""
+    t = case.split(' ')
+    if t[1] != 'r' or f.get('tmp') != '-' or f.get('cwd') != '-' or len(t[3]) != len(files):
+        return False
+    items = _dec_items(f.get('diff'))
+    if not items:
+        return False
+    dirs = set()
+    for it in items:
+        p = it.split(' ')[1]
+        m = re.match(r'^(.*)/rpmdb\.sqlite(-wal|-shm|-journal)?$', p)
+        if not m:
+            return False
+        dirs.add(m.group(1))
+    for d in dirs:
+        if not any(files[k] in (d + '/rpmdb.sqlite-wal', d + '/rpmdb.sqlite-shm', d + '/rpmdb.sqlite-journal') and c != '5' for k, c in enumerate(t[3])):
+            return False
+    return True
+
+
+def scan_stream(ctx, replay=None):
     """runtime observation: scans leave the scanned tree, the working directory and TMPDIR as they were"""
     binary = ctx.go_build('c06scan')
     if binary is None:
         ctx.violation('harness c06scan does not build against /repo: %s' % getattr(ctx, 'go_log', '')[-1500:], ['# c06scan'], found_input=False, name='build-c06scan')
         return
-    n = {'quick': 6, 'thorough': 60}[ctx.tier]
-    rows, ok = ctx.run_gen(binary, ['-seed', str(ctx.seed), '-n', str(n)], timeout=3000)
-    if not ok:
-        ctx.violation('c06scan crashed: ' + '; '.join(ctx.notes[-1:]), ['# see notes'], found_input=False, name='gencrash-c06scan')
-    scans = 0
+    env = {'VERIF_REPO': lib.ALT_REPO} if lib.ALT_REPO else None
+    files, defaults, groups = _scan_table(binary)
+    rows = []
+    if replay:
+        r, ok = ctx.run_gen(binary, ['-replay', replay], timeout=3000, env=env)
+        rows += r
+    else:
+        corp = []
+        d = lib.VERIF + '/corpus/C06'
+        for fn in sorted(os.listdir(d)):
+            if fn.endswith('.scan'):
+                corp += [l.rstrip('\n') for l in open(os.path.join(d, fn)) if l.strip() and not l.startswith('#')]
+        if corp:
+            tmp = lib.VERIF + '/evidence/.corpus-C06-scan.txt'
+            open(tmp, 'w').write('\n'.join(corp) + '\n')
+            r, ok = ctx.run_gen(binary, ['-replay', tmp], timeout=3000, env=env)
+            os.remove(tmp)
+            rows += r
+        n = {'quick': 30, 'thorough': 400}[ctx.tier]
+        r, ok = ctx.run_gen(binary, ['-seed', str(ctx.seed), '-n', str(n)], timeout=3000, env=env)
+        rows += r
+        if not ok:
+            ctx.violation('c06scan crashed: ' + '; '.join(ctx.notes[-1:]), ['# see notes'], found_input=False, name='gencrash-c06scan')
+    scans, panics, reported = 0, {}, 0
     for case, reply in rows:
         f = lib.fields(reply)
         scans += 1
-        ctx.add_case(case, True, 'scan ' + f.get('status', '?'))
-        if f.get('diff') != '-' or f.get('tmp') != '-' or f.get('cwd') != '-':
-            ctx.violation('a scan changed the file system: tree diff=%s tmp=%s cwd=%s' % (f.get('diff'), f.get('tmp'), f.get('cwd')), [case + '\t' + reply])
-    ctx.extra['scan_observation'] = '%d scans (all offline filesystem extractors, DirFS root) over trees with valid / empty / truncated / corrupt files at production paths: before/after snapshots equal' % scans
+        changed = f.get('diff') != '-' or f.get('tmp') != '-' or f.get('cwd') != '-'
+        ctx.add_case(case, True, 'scan route=%s %s%s' % (case.split(' ')[1] if ' ' in case else '?', f.get('status', reply), ' CHANGED' if changed else ''))
+        if 'diff' not in f:
+            ctx.violation('c06scan could not run a case (harness / file-table skew): %s' % reply, [case + '\t' + reply], found_input=False, name='scan-skew')
+            continue
+        if f.get('status') == 'panic':
+            msg = ''.join(_dec_items(f.get('panic')))
+            panics.setdefault(msg, _tree_text(case, files, defaults))
+        if not changed:
+            continue
+        what = 'tree: %s | TMPDIR: %s | cwd: %s' % ('; '.join(_dec_items(f['diff'])) or '-', '; '.join(_dec_items(f['tmp'])) or '-', '; '.join(_dec_items(f['cwd'])) or '-')
+        text = 'a scan changed the file system (%s). %s' % (what, _tree_text(case, files, defaults))
+        if _rpm_sqlite_class(case, f, files) and ctx.known_finding(SCAN_KEY, text):
+            continue
+        if reported < 3:
+            reported += 1
+            ctx.violation(text, ['# ' + _tree_text(case, files, defaults), '# ' + what, case + '\t' + reply])
+    ctx.extra['scan_observation'] = ('%d scans with every offline filesystem extractor, half through a real directory root (DirectFS) and half through a virtual FS '
+                                     '(ScanRoot.Path empty): the pristine tree, every auxiliary-file combination of the groups below, and random variant trees; files 0644 / '
+                                     'directories 0755 owned by the scanning user; before/after snapshots of tree, fresh TMPDIR and fresh cwd compare the path set and per '
+                                     'path type, mode, size, mtime, link target, SHA-256 (directory mtimes left out: create-then-remove does not count)' % scans)
+    ctx.extra['scan_auxiliary_groups'] = groups
+    ctx.extra['scan_auxiliary_sources'] = [
+        'containers/containerd: bolt.Open of <root>/var/lib/containerd/io.containerd.snapshotter.v1.overlayfs/metadata.db; os.Stat/ReadFile of .../io.containerd.grpc.v1.cri/containers/<id>/status; paths under .../overlayfs/snapshots/<n>/{fs,work} are only composed',
+        'os/rpm: rpmdb.Open(GetRealPath) = go-rpmdb: sqlite3 via database/sql (read-write: SQLite itself opens <db>-wal, <db>-shm, <db>-journal), ndb Packages.db, Berkeley DB Packages; etc/os-release through input.FS',
+        'language/dotnet/dotnetpe: GetRealPath (virtual route: copy below TMPDIR, removed afterwards)',
+        'language/golang/gomod: go.sum beside go.mod (input.FS); language/python/requirements: files named by -r/-c (input.FS); misc/chrome/extensions: _locales/<locale>/message.json (input.FS)',
+        'os/{dpkg,apk,rpm,pacman,portage,snap,flatpak,nix,cos}, os/kernel/{module,vmlinuz}: etc/os-release, usr/lib/os-release (input.FS)']
+    if panics:
+        ctx.notes.append('scans that panicked inside Scan (recovered by the harness; a C02 matter, no file-system change attributed): ' + ' || '.join('%s: %s' % kv for kv in panics.items()))
